@@ -57,10 +57,14 @@ pub trait Connection<B> {
     /// ghost: ready for the next request (previous exchange finished, not closed)
     spec fn open_now(&self) -> bool;
 
+    /// ghost: the last `poll_ready` reported the previous exchange finished (Ready)
+    spec fn settled(&self) -> bool;
+
     fn poll_ready(&mut self, cx: &mut std::task::Context<'_>) -> (r: std::task::Poll<Result<(), Self::Error>>)
         ensures
             final(self).id() == old(self).id(),
-            final(self).shareable() == old(self).shareable();
+            final(self).shareable() == old(self).shareable(),
+            (r is Ready) == final(self).settled();
 }
 
 pub trait PoolableConnection<B>: Connection<B> + Unpin + Send + Sized + 'static
